@@ -28,11 +28,13 @@ static void make_twin(uint8_t *h, bool legacy = false) {
     put32(h + ref::O_MCRC, bswap32(crc));
 }
 
-struct Base { bool ok = false; std::string err; std::unique_ptr<Instance> in; Stripe s; Config g; };
+struct Base { bool ok = false, crc0 = false; std::string err; std::unique_ptr<Instance> in; Stripe s; Config g; std::vector<uint8_t> data; };
 static void make_base(Base &b, const Case &c, int writer_env = 0) {
     b.g = cfg_from(c);
     if (ref::is_isa(b.g.backend) && !isa_available()) { b.err = "skip"; return; }
     std::vector<uint8_t> data = expand_buffer(c, "data");
+    if (c.get("crc0", 0)) b.crc0 = make_crc0(b.g, data, (int)((c.get("crc0") - 1) % b.g.k));
+    b.data = data;
     set_env(writer_env);
     b.in.reset(new Instance(b.g));
     if (!b.in->ok()) { set_env(0); b.err = "create refused rc=" + std::to_string(b.in->desc); return; }
@@ -212,8 +214,22 @@ static Result run_c10(const Case &c) {
     bool legacy = env_legacy(wenv);
     // source: the fragment as encode wrote it, or as reconstruct rebuilds it (written under wenv too)
     if (c.get("via_reconstruct") && t >= 1) {
+        // the surviving fragments may come from a writer configured with another checksum type (same back end and
+        // shape): what reconstruct writes is governed by the configuration of the instance doing the rebuild
+        Stripe foreign;
+        int wct = (int)c.get("writer_ct", 0);
+        if (wct && wct != CT_CRC32) {
+            Config g2 = b.g; g2.ct = wct;
+            set_env(wenv);
+            Instance w2(g2);
+            if (w2.ok()) foreign = encode(w2.desc, g2, b.data);
+            set_env(0);
+            if (!w2.ok() || foreign.rc != 0) { r.fail("writer instance with another checksum type failed"); return r; }
+            r.cls("rebuilt_from_other_ct_" + std::to_string(wct));
+        }
+        const Stripe &src = foreign.frags.empty() ? b.s : foreign;
         std::vector<const std::vector<uint8_t> *> frs;
-        for (int i = 0; i < n; i++) if (i != fi) frs.push_back(&b.s.frags[i]);
+        for (int i = 0; i < n; i++) if (i != fi) frs.push_back(&src.frags[i]);
         FragSet fs; fs.build(frs, {});
         int recenv = (int)c.get("recenv", wenv);      // the switch at repair time is independent of the one at encode time
         set_env(recenv);
@@ -226,6 +242,7 @@ static Result run_c10(const Case &c) {
             r.fail("reconstruct failed rc=" + std::to_string(o.rc)); return r;
         }
         f = o.out;
+        if (f.size() != b.s.frags[fi].size() || memcmp(f.data() + 80, b.s.frags[fi].data() + 80, f.size() - 80)) r.fail("rebuilt payload differs from the encoded one");
         r.cls("via_reconstruct");
     }
     size_t paylen = f.size() - 80;
@@ -271,6 +288,7 @@ static Result run_c10(const Case &c) {
     for (size_t i = 0; i < paylen; i++) if (pay[i] >= 0x80) high = true;
     r.cls("wenv_" + std::to_string(wenv)); r.cls("renv_" + std::to_string(renv)); r.cls("ckind_" + std::to_string(kind));
     r.cls(want_mismatch ? "mismatch" : "intact");
+    if (b.crc0 && fi == (int)((c.get("crc0") - 1) % b.g.k)) r.cls(stored == 0 ? "stored_checksum_zero" : "crc0_requested_other_variant");
     r.nontrivial = high && kind != 0;
     return r;
 }
@@ -281,6 +299,8 @@ static Case gen_c10() {
     c.set("renv", weighted({4, 1, 1, 3, 1}));
     c.set("via_reconstruct", coin(1, 3) ? 1 : 0);
     c.set("recenv", weighted({4, 1, 1, 3, 1}));
+    c.set("writer_ct", weighted({3, 2, 0, 1}));        // 0: same instance, 1: NONE-configured writer, 3: MD5-configured writer
+    { Config g = cfg_from(c); int fi = (int)(c.get("frag") % g.n()); if (coin(1, 5) && fi < g.k) c.set("crc0", fi + 1); }
     c.set("ckind", weighted({2, 4, 2, 2, 2, 1}));
     c.set("carg", pick(0, 1 << 24));
     c.set("cval", pick(0, 1 << 24));
@@ -352,17 +372,30 @@ static Result run_c11(const Case &c) {
         ref::reseal(f.data());
         r.cls("asymmetric_fields");
     }
+    // optionally the header claims another library version: releases before 1.2.0 wrote no metadata checksum
+    // (field left zero), later ones did; both hosts must treat the same logical header the same way
+    int64_t lv = c.get("libver", 0);
+    bool unsealed = false;
+    if (lv) {
+        put32(&f[ref::O_LIBVER], (uint32_t)lv);
+        if (c.get("libver_seal", 1)) ref::reseal(f.data(), env_legacy(wenv)); else { put32(&f[ref::O_MCRC], 0); unsealed = true; }
+        r.cls((uint32_t)lv < ref::V120 ? "claims_pre_1_2_0" : (uint32_t)lv > liberasurecode_get_version() ? "claims_future" : "claims_other_release");
+        if (unsealed) r.cls("no_metadata_checksum");
+    }
     bool corrupt = c.get("corrupt") && paylen > 0;
     if (corrupt) { int64_t a = c.get("carg"); f[80 + (a % (paylen * 8)) / 8] ^= (uint8_t)(1u << (a % 8)); r.cls("payload_corrupted"); }
     std::vector<uint8_t> tw = f;
     make_twin(tw.data(), env_legacy(wenv) && (c.get("carg") & 1));
+    if (unsealed) put32(&tw[ref::O_MCRC], 0);
     ExactBuf fa(f), fb(tw);
     fragment_metadata_t ma, mb; memset(&ma, 0x11, sizeof ma); memset(&mb, 0x22, sizeof mb);
     set_env(renv);
     int ra = liberasurecode_get_fragment_metadata(fa.p, &ma);
     int rb = liberasurecode_get_fragment_metadata(fb.p, &mb);
     set_env(0);
-    if (ra != 0) r.fail("native fragment rejected by the metadata query rc=" + std::to_string(ra));
+    bool expect_ok = !lv || !unsealed || (uint32_t)lv < ref::V120;
+    if (expect_ok && ra != 0) r.fail("native fragment rejected by the metadata query rc=" + std::to_string(ra));
+    if (!expect_ok && ra == 0) r.fail("native fragment of a release >= 1.2.0 without a metadata checksum accepted by the metadata query");
     if (ra != rb) r.fail("return codes differ: native " + std::to_string(ra) + ", opposite-endian twin " + std::to_string(rb));
     if (ra == 0 && rb == 0) {
         auto cmp = [&](const char *name, uint64_t x, uint64_t y) { if (x != y) r.fail(std::string("field ") + name + ": native " + std::to_string(x) + " vs twin " + std::to_string(y)); };
@@ -390,6 +423,13 @@ static Case gen_c11() {
     c.set("carg", pick(0, 1 << 24));
     c.set("wenv", weighted({5, 1, 1, 4, 1}));
     c.set("renv", weighted({5, 1, 1, 3, 1}));
+    if (coin(1, 3)) {
+        int64_t v = weighted({3, 2, 1}) == 0 ? ((int64_t)1 << 16) | (pick(0, 1) << 8) | pick(0, 9)        // 1.0.x / 1.1.x
+                                              : (pick(0, 2) << 16) | (pick(0, 9) << 8) | pick(0, 9);
+        if (v == 0) v = 1;
+        c.set("libver", v);
+        c.set("libver_seal", ((uint32_t)v < ref::V120 ? coin(1, 3) : coin(4, 5)) ? 1 : 0);
+    }
     return c;
 }
 
